@@ -74,7 +74,7 @@ def C16(tier, rng):
     cs = []
     kinds = [0, 1, 2, 3, 4, 5, 6, 7, 65534, 65535]
     # emitted records: parameter sets over all kinds, any insertion order, duplicates
-    for _ in range(sz(tier, 6000, 60000)):
+    for _ in range(sz(tier, 20000, 80000)):
         ty = rng.choice([SVCB, HTTPS])
         ps = [rand_param(rng, rng.choice(kinds)) for _ in range(rng.choice([0, 1, 2, 3, 5, 9]))]
         given = list(ps)
@@ -194,6 +194,6 @@ def C18(tier, rng):
                     else: rrs = [rr_of(ty, earlier, (b'p',))]
                     m = msg_with(rrs + [rr_of(ty, n, owner)], qs=qs)
                     cs.append(enc_case(m, 'c18-%d-%s' % (ty, pos)))
-    for _ in range(sz(tier, 3000, 40000)):
+    for _ in range(sz(tier, 10000, 60000)):
         cs.append(enc_case(rand_msg(rng, types=NEWTYPES + [2, 5, 6, 15, 12, 14, 1]), 'random'))
     return cs
